@@ -245,7 +245,7 @@ def run_property(pid: str, tier: str, seed: int, jobs: int = 16, only: Optional[
         for inc in r["inconclusive"]:
             print(f"INCONCLUSIVE property={pid} obligation={r['ob']} param={json.dumps(r['param'])} {json.dumps(inc)[:300]}")
         for k in r.get("known_hits", []):
-            known_hits.append((r["ob"], k))
+            known_hits.append((r["ob"], k, None))
         for vi, v in enumerate(r["violations"]):
             if violations >= 1 and n_replayed >= MAX_REPLAYS:
                 # the verdict (exit 1) is already settled by a confirmed violation
@@ -266,7 +266,7 @@ def run_property(pid: str, tier: str, seed: int, jobs: int = 16, only: Optional[
                 kf = _match_known(known, r["ob"], v, rep)
                 if kf is not None:
                     o["known"] += 1
-                    known_hits.append((r["ob"], kf))
+                    known_hits.append((r["ob"], kf, v["label"]))
                 else:
                     violations += 1
                     o["violations"] += 1
@@ -281,7 +281,7 @@ def run_property(pid: str, tier: str, seed: int, jobs: int = 16, only: Optional[
     if suppressed:
         print(f"NOTE property={pid}: {suppressed} further counterexample candidates were not replayed (cap {MAX_REPLAYS}); the obligations they belong to count as inconclusive")
     seen = set()
-    for obn, kf in known_hits:
+    for obn, kf, hit_label in known_hits:
         key = kf.get("id") or kf.get("what")
         if key in seen:
             continue
@@ -293,7 +293,7 @@ def run_property(pid: str, tier: str, seed: int, jobs: int = 16, only: Optional[
             # reported as known while it still reproduces
             fn = os.path.join(ROOT, "replays", f"{pid}_{obn}_known_witness.json")
             with open(fn, "w") as f:
-                json.dump(dict(property=pid, obligation=obn, param=w["param"], label=kf.get("label_re", ""), models=[w["model"]]), f, indent=1)
+                json.dump(dict(property=pid, obligation=obn, param=w["param"], label=hit_label or kf.get("label_re", "").strip("^$"), models=[w["model"]]), f, indent=1)
             rep = replay_file(pid, fn)
             note = " [witness reproduces on the real code]" if rep.get("reproduced") else " [witness NO LONGER reproduces: the entry in known_findings.json is stale]"
         print(f"KNOWN-FINDING: property={pid} {kf.get('what')}{note}")
@@ -348,7 +348,7 @@ def run_property(pid: str, tier: str, seed: int, jobs: int = 16, only: Optional[
             "samples": samples or [{"note": "no path with a non-empty path condition"}],
             "second_solver": xcheck,
             "nonreproducing_models": nonrepro,
-            "known_findings_hit": [kf.get("what") for _, kf in known_hits],
+            "known_findings_hit": [kf.get("what") for _, kf, _l in known_hits],
             "exhaustive": all(o["exhausted"] for o in per_ob.values()) and harness_errors == 0,
         },
         "assumptions": list(getattr(mod, "ASSUMPTIONS", [])),
